@@ -102,6 +102,39 @@ def check_name(ctx, name, hash_filenames, kind, create=False, full=False, walk=F
              'directory %r' % (kind, hash_filenames, name, p1, norm, data_real), case, 'confinement')
     return None
   if kind == 'whisper' and full:
+    # exists() - which the writer calls before every create and write - may look at and move files: every path it
+    # touches lies inside the data directory too
+    touched = []
+    from carbon import database as dbmod
+    real_exists, real_rename = env.need(dbmod, 'exists'), os.rename
+
+    def spy_exists(p_):
+      touched.append(('exists', p_))
+      return real_exists(p_)
+
+    def spy_rename(a_, b_, *x, **kw):
+      touched.append(('rename', a_))
+      touched.append(('rename', b_))
+      return real_rename(a_, b_, *x, **kw)
+    dbmod.exists = spy_exists
+    os.rename = spy_rename
+    try:
+      try:
+        db.exists(name)
+      except OSError:
+        pass
+      except Exception as e:  # noqa
+        ctx.fail('C14:exists-raised:%s' % type(e).__name__, 'exists(%r) raised %r' % (name, e), case)
+        return None
+    finally:
+      dbmod.exists = real_exists
+      os.rename = real_rename
+    for what, p_ in touched:
+      np_ = os.path.normpath(os.path.join(data_real, p_))
+      if not (inside(np_, data_real) or np_ == data_real):
+        ctx.fail('C14:escapes-data-dir:whisper', 'exists(%r) %s %r, which is not inside the data directory %r' % (
+          name, 'looks at' if what == 'exists' else 'renames', p_, data_real), case, 'confinement')
+        return None
     db2, data2 = other_instance(hash_filenames)
     try:
       q = db2.getFilesystemPath(name)
